@@ -331,6 +331,11 @@ func (fx *FnCtx) builtin(st *State, name string, call *ast.CallExpr) []Val {
 				cur.S, cur.S, cur.T, cur.S, cur.T, cur.S, cur.T, v.T, cur.S, cur.T, cur.S, cur.T, nc)
 			st.assume(fmt.Sprintf("(>= %s (+ (len_%s %s) 1))", nc, cur.S, cur.T))
 			st.assume(fmt.Sprintf("(>= %s (cap_%s %s))", nc, cur.S, cur.T))
+			// no reallocation while there is room; a reallocated backing array is zeroed beyond the new length
+			st.assume(fmt.Sprintf("(=> (< (len_%s %s) (cap_%s %s)) (= %s (cap_%s %s)))", cur.S, cur.T, cur.S, cur.T, nc, cur.S, cur.T))
+			el := fx.sc.elemFn(cur.S)
+			st.assume(fmt.Sprintf("(forall ((k Int)) (! (=> (and (>= k (cap_%s %s)) (< k %s) (not (= k (len_%s %s)))) (= (%s %s k) %s)) :pattern ((%s %s k))))",
+				cur.S, cur.T, nc, cur.S, cur.T, el, cur.T, fx.sc.Zero(sl.Elem()), el, cur.T))
 			c := fx.sc.Fresh("appended", cur.S)
 			st.facts = append(st.facts, "(= "+c+" "+t+")")
 			cur = Val{c, cur.S, rt}
@@ -677,7 +682,11 @@ func (fx *FnCtx) applyCall(st *State, ci *calleeInfo, recv *Val, args []Val, at 
 		if t.ref == "" {
 			fx.havocHeap(st, t.heap, t.sort)
 		} else {
-			nv := fx.sc.Fresh("hv", arrayElemSort(t.sort))
+			es := arrayElemSort(t.sort)
+			nv := fx.sc.Fresh("hv", es)
+			if strings.HasPrefix(es, "Slice_") {
+				st.facts = append(st.facts, fx.sliceWF(Val{nv, es, nil}))
+			}
 			fx.setHeap(st, t.heap, t.sort, "(store "+cur+" "+t.ref+" "+nv+")")
 		}
 	}
@@ -742,6 +751,9 @@ func (fx *FnCtx) applyCall(st *State, ci *calleeInfo, recv *Val, args []Val, at 
 		}
 	}
 	for _, e := range fc.Ensures {
+		if hasTag(e.Tags, "local") {
+			continue // mentions locals of the callee body: checked there, not usable by callers
+		}
 		st.assume(fx.specBool(cenv, e.Expr))
 	}
 	res = append(res, outcome{st: st})
